@@ -9,8 +9,23 @@ pub fn cfg_on(c: &Option<String>, truth: &dyn Fn(&str) -> bool) -> bool {
     c.as_ref().map(|s| s.split(" && ").all(|p| truth(p))).unwrap_or(true)
 }
 
+/// The symbolic predicates p0..p3 of the library-driven enumeration are WRITTEN as predicates that are easy to
+/// confuse: p1 extends p0 inside the group, p3 extends p2 at top level (each is a token-prefix of the other), and
+/// p0/p1 differ from p2/p3 only from the first token on. Their truth values stay independent (the driver supplies them).
+pub const PRED_TEXT: [(&str, &str); 4] = [("p0", "any(fa)"), ("p1", "any(fa, fb)"), ("p2", "fa"), ("p3", "fa = \"x\"")];
+
+pub fn pred_text(p: &str) -> &str {
+    PRED_TEXT.iter().find(|(k, _)| *k == p).map(|(_, v)| *v).unwrap_or(p)
+}
+
+/// Inverse of pred_text on the (whitespace-insensitive) token text the real parser hands back.
+pub fn pred_symbol(text: &str) -> String {
+    let n = |s: &str| s.chars().filter(|c| !c.is_whitespace()).collect::<String>();
+    PRED_TEXT.iter().find(|(_, v)| n(v) == n(text)).map(|(k, _)| k.to_string()).unwrap_or_else(|| text.to_string())
+}
+
 pub fn cfg_attrs(c: &Option<String>) -> String {
-    c.as_ref().map(|s| s.split(" && ").map(|p| format!("#[cfg({})] ", p)).collect::<String>()).unwrap_or_default()
+    c.as_ref().map(|s| s.split(" && ").map(|p| format!("#[cfg({})] ", pred_text(p))).collect::<String>()).unwrap_or_default()
 }
 
 pub fn cfg_preds(c: &Option<String>) -> Vec<String> {
